@@ -413,18 +413,24 @@ def build(ctx):
 
     def before():
         for cls in CLASSES:
-            for q, kw in ((resv.RF, {}), (resv.RF, {"density": True}), (resv.RFI, {})):
+            # every way of asking: no arguments, the in-place mode, and with a time array (positional or keyword; the
+            # `time` parameter of recovery_factor is documented but unused - it must not make the call succeed)
+            for q, kw in ((resv.RF, {}), (resv.RF, {"density": True}), (resv.RF, {"time": "ARR"}), (resv.RF, {"time": "ARR", "density": True}), (resv.RFI, {})):
                 def mk(cls=cls, kw=kw):
                     fluid, fo = resv.make_fluid(ctx)
-                    return [resv.make_reservoir(ctx, cls, fluid)], dict(kw)
+                    kw2 = {k_: (resv.time_arr() if v_ == "ARR" else v_) for k_, v_ in kw.items()}
+                    return [resv.make_reservoir(ctx, cls, fluid)], kw2
                 outs = ctx.engine.run_paths(ctx.engine.func(q), mk, pc=BASE)
-                if any(o.kind != "raise" or o.value != "RuntimeError" for o in outs):
-                    return be.Verdict(be.REFUTED, "SYMEX", witness={}, detail=f"{q.split('.')[-1]} before any simulate: {[(o.kind, o.value) for o in outs]}")
+                # without arguments the documented RuntimeError; with a time argument any error (the clean code fails on the
+                # missing field with AttributeError) - what must not happen is a normal return
+                allowed = ("RuntimeError",) if "time" not in kw else ("RuntimeError", "AttributeError")
+                if any(o.kind != "raise" or o.value not in allowed for o in outs):
+                    return be.Verdict(be.REFUTED, "SYMEX", witness={}, detail=f"{q.split('.')[-1]}({', '.join(kw)}) before any simulate: {[(o.kind, o.value) for o in outs]}")
                 if any(o.heap["args"][0].writes for o in outs):
                     return be.Verdict(be.REFUTED, "FRAME", witness={}, detail="state written before raising")
         return be.Verdict(be.PROVED, "SYMEX", detail="RuntimeError from recovery_factor(), recovery_factor(density=True) and recovery_factor_interpolator() on a fresh object of either class")
 
-    obs.append(Obligation("before_simulate", "recovery_factor() and recovery_factor_interpolator() raise RuntimeError (and write nothing) when nothing has been simulated", before, [resv.RF, resv.RFI], "SYMEX", seq_replay))
+    obs.append(Obligation("before_simulate", "recovery_factor() and recovery_factor_interpolator() raise RuntimeError (and write nothing) when nothing has been simulated; recovery_factor(time[, density]) raises as well", before, [resv.RF, resv.RFI], "SYMEX", seq_replay))
 
     def canary():
         outs, h = resv.run_simulate(ctx, "SinglePhaseReservoir", "array", old_state(True))
